@@ -3063,6 +3063,12 @@ Box<ITV>
     copy = seq;
     for (Constraint_System::const_iterator i = cs_begin; i != cs_end; ++i) {
       propagate_constraint_no_check(*i);
+      // If an inconsistent constraint made the box empty there is nothing
+      // else to do (and propagating the other constraints would reset
+      // the emptiness flags).
+      if (marked_empty()) {
+        return;
+      }
     }
 
     WEIGHT_ADD_MUL(40, propagation_weight);
